@@ -5,7 +5,9 @@ type nat =
 | O
 | S of nat
 
-val option_map : ('a1 -> 'a2) -> 'a1 option -> 'a2 option
+val fst : ('a1 * 'a2) -> 'a1
+
+val snd : ('a1 * 'a2) -> 'a2
 
 val length : 'a1 list -> nat
 
@@ -20,8 +22,6 @@ val compOpp : comparison -> comparison
 
 val add : nat -> nat -> nat
 
-val sub : nat -> nat -> nat
-
 type positive =
 | XI of positive
 | XO of positive
@@ -35,6 +35,11 @@ type z =
 | Z0
 | Zpos of positive
 | Zneg of positive
+
+module Nat :
+ sig
+  val min : nat -> nat -> nat
+ end
 
 module Pos :
  sig
@@ -72,8 +77,6 @@ module Pos :
 
   val ldiff : positive -> positive -> n
 
-  val coq_lxor : positive -> positive -> n
-
   val iter_op : ('a1 -> 'a1 -> 'a1) -> positive -> 'a1 -> 'a1
 
   val to_nat : positive -> nat
@@ -87,9 +90,9 @@ module N :
 
   val coq_lor : n -> n -> n
 
-  val ldiff : n -> n -> n
+  val coq_land : n -> n -> n
 
-  val coq_lxor : n -> n -> n
+  val ldiff : n -> n -> n
  end
 
 module Z :
@@ -128,6 +131,8 @@ module Z :
 
   val eqb : z -> z -> bool
 
+  val min : z -> z -> z
+
   val to_nat : z -> nat
 
   val of_nat : nat -> z
@@ -142,293 +147,151 @@ module Z :
 
   val modulo : z -> z -> z
 
+  val odd : z -> bool
+
   val div2 : z -> z
 
   val shiftl : z -> z -> z
 
   val shiftr : z -> z -> z
 
-  val coq_land : z -> z -> z
+  val coq_lor : z -> z -> z
 
-  val coq_lxor : z -> z -> z
+  val coq_land : z -> z -> z
 
   val lnot : z -> z
  end
 
+val hd : 'a1 -> 'a1 list -> 'a1
+
+val tl : 'a1 list -> 'a1 list
+
 val nth : nat -> 'a1 list -> 'a1 -> 'a1
-
-val flat_map : ('a1 -> 'a2 list) -> 'a1 list -> 'a2 list
-
-val fold_left : ('a1 -> 'a2 -> 'a1) -> 'a2 list -> 'a1 -> 'a1
-
-val forallb : ('a1 -> bool) -> 'a1 list -> bool
 
 val firstn : nat -> 'a1 list -> 'a1 list
 
 val skipn : nat -> 'a1 list -> 'a1 list
 
-val repeat : 'a1 -> nat -> 'a1 list
-
 val uw : z -> z -> z
 
 val sw : z -> z -> z
 
-val iWFSM_CUSTOM_HDR_DATA_OFFSET : z
+val set_vnum_loop : nat -> z -> z list
 
-val iWKV_MAGIC : z
+val set_vnum64 : z -> z list
 
-val iWKV_BACKUP_MAGIC : z
+val set_vnum32 : z -> z list
 
-val wOP_SET : z
+val read_vnum_loop : z list -> z -> z -> nat -> (z * nat) option
 
-val wOP_COPY : z
+val read_vnum : z list -> (z * nat) option
 
-val wOP_WRITE : z
+val iWNUMBUF_SIZE : z
 
-val wOP_RESIZE : z
+val ascii2hex_tbl : z list
 
-val wOP_SAVEPOINT : z
+val pREFIX_KEY_LEN_V2 : z
 
-val wOP_RESET : z
+val iW_VNUMBUFSZ : z
 
-val wOP_SEP : z
+val iW_VNUMSIZE : z -> z
 
-val sizeof_WBSEP : z
+val iW_VNUMSIZE32 : z -> z
 
-val sizeof_WBRESET : z
-
-val sizeof_WBSET : z
-
-val sizeof_WBCOPY : z
-
-val sizeof_WBWRITE : z
-
-val sizeof_WBRESIZE : z
-
-val sizeof_WBSAVEPOINT : z
-
-val offsetof_WBSEP_crc : z
-
-val offsetof_WBSEP_len : z
-
-val offsetof_WBSET_val : z
-
-val offsetof_WBSET_off : z
-
-val offsetof_WBSET_len : z
-
-val offsetof_WBCOPY_off : z
-
-val offsetof_WBCOPY_len : z
-
-val offsetof_WBCOPY_noff : z
-
-val offsetof_WBWRITE_crc : z
-
-val offsetof_WBWRITE_len : z
-
-val offsetof_WBWRITE_off : z
-
-val offsetof_WBRESIZE_osize : z
-
-val offsetof_WBRESIZE_nsize : z
-
-val offsetof_WBSAVEPOINT_ts : z
-
-val iwu_crc32_table : z list
-
-val wAL_PAGE_SIZE : z
-
-val wAL_IWFSM_MAGICK : z
-
-val bKP_WAL_CLEANUP : z
-
-val bKP_MAIN_COPY : z
-
-val wAL_SCAN_SP_CHECKS_AVAIL : z
-
-val wAL_REPLAY_REBASES_FPOS : z
+val iW_RANGES_OVERLAP : z -> z -> z -> z -> z
 
 val iW_ROUNDUP : z -> z -> z
 
-type bytes = z list
+val iW_ROUNDOWN : z -> z -> z
 
-val le_enc : nat -> z -> bytes
+type mem = { m_len : z; m_init : (z -> z); m_wr : (z * z) list }
 
-val le_dec : bytes -> z
+val rd_wr : (z * z) list -> (z -> z) -> z -> z
 
-val rd : nat -> z -> bytes -> z
+val inb : mem -> z -> bool
 
-val rd_off : z -> bytes -> z
+val rd : mem -> z -> z option
 
-type rec0 =
-| RSep of z * z
-| RSet of z * z * z
-| RCopy of z * z * z
-| RWrite of z * z * bytes
-| RResize of z * z
-| RSavepoint of z
-| RReset
+val wr : mem -> z -> z -> mem option
 
-val hdr : z -> bytes
+val peek : mem -> z -> z
 
-val enc_rec : rec0 -> bytes
+val shl1 : nat -> mem -> z -> mem option
 
-val encode : rec0 list -> bytes
+val itoa_loop : nat -> z -> z -> z -> z -> z -> mem -> ((z * z) * mem) option
 
-val rec_size : rec0 -> z
+val rev_loop : nat -> z -> z -> mem -> mem option
 
-val layout_ok : bool
+val int64_min_text : z list
 
-val crc32_step : z -> z -> z
+val wr_list : mem -> z -> z list -> mem option
 
-val crc32 : bytes -> z -> z
+val itoa_digits : z -> mem -> z -> z -> z -> (z * mem) option
 
-type sstep =
-| SStop
-| SNext of z * z * z
+val itoa : z -> mem -> z -> (z * mem) option
 
-val scan_step : bool -> bool -> z -> z -> bytes -> z -> z -> sstep
+val cstr : nat -> mem -> z -> z list
 
-val scan_loop : bool -> nat -> bool -> z -> z -> bytes -> z -> z -> z * z
+val skip_ws : z list -> z list
 
-val sp_checks : bool
+val atoi_digits : z list -> z -> z
 
-val scan_with : bool -> bytes -> z * z
+val is_inf : z list -> bool
 
-val scan : bytes -> z * z
+val atoi : z list -> z
 
-val parse_loop : nat -> bytes -> rec0 list option
+val hexdigit : z -> z
 
-val parse : bytes -> rec0 list option
+val bin2hex : z list -> z list
 
-val is_sp : rec0 -> bool
+val a2h : z -> z
 
-val is_sep : rec0 -> bool
+val hex2bin_even : z list -> z list
 
-val first_sp : rec0 list -> z -> z option
+val hex2bin : z list -> z list
 
-val u32 : z -> bool
+type kmode = { km_vnum : bool; km_real : bool; km_compound : bool }
 
-val i64 : z -> bool
+val cmp2 : z list -> z list -> z
 
-val rec_range : rec0 -> bool
+val sgn3 : z -> z -> z
 
-val sep_ok : rec0 list -> z -> bool
+val read_vnum2 : z list -> z
 
-val wf_log : rec0 list -> bool
+val strncmp : nat -> z list -> z list -> z
 
-val crc_ok : rec0 list -> bool
+val memcmp : nat -> z list -> z list -> z
 
-val crc_full : rec0 list -> bool
+val af_skip : z list -> z list
 
-val sp_offsets : rec0 list -> z -> z list
+val af_int : z list -> z -> z * z list
 
-type verdict =
-| VOk
-| VCorrupt
-| VFault
+val af_frac : z list -> nat -> z -> z -> z * z
 
-type aop =
-| ASet of z * z * z
-| ACopy of z * z * z
-| AWrite of z * bytes
-| AResize of z
+val af_part : z list -> (z * z) * z list
 
-val take_pad : z -> bytes -> bytes
+val af_hasfrac : z list -> bool
 
-type rstep =
-| RStop of verdict
-| RNext of z * aop list
+val af_fracval : z -> z list -> z * z
 
-val replay_step : bool -> bool -> z -> z -> bytes -> z -> rstep
+val afcmp : (nat -> z list -> z list -> z) -> z list -> z list -> z
 
-val replay_loop :
-  nat -> bool -> bool -> z -> z -> bytes -> z -> verdict * aop list
+val vnum_cmp : z list -> z list -> z
 
-val fpos_rebased : bool
+val cmp_keys_prefix :
+  (nat -> z list -> z list -> z) -> kmode -> z list -> z list -> z -> z
 
-val replay_ops_with : bool -> bool -> z -> z -> bytes -> verdict * aop list
+val cmp_keys :
+  (nat -> z list -> z list -> z) -> kmode -> z list -> z list -> z -> z
 
-val replay_ops : bool -> z -> z -> bytes -> verdict * aop list
+val stored : kmode -> z list -> z -> z list
 
-val overwrite : bytes -> bytes -> bytes option
+val kcmp :
+  (nat -> z list -> z list -> z) -> kmode -> (z list * z) -> (z list * z) -> z
 
-val splice_at : bytes -> z -> bytes -> bytes option
+val sblk_cmp_key :
+  (nat -> z list -> z list -> z) -> kmode -> z list -> bool -> z list -> z ->
+  z option
 
-val splice : bytes -> z -> bytes -> bytes option
-
-val fill_at : bytes -> z -> z -> z -> bytes option
-
-val slice_at : bytes -> z -> z -> bytes option
-
-val resize_nat : nat -> bytes -> bytes
-
-val apply_op : bytes -> aop -> bytes option
-
-val apply_ops : bytes -> aop list -> bytes option
-
-val recover_with :
-  bool -> bool -> z -> z -> bytes -> bytes -> (verdict * bytes) * aop list
-
-val recover : bool -> z -> z -> bytes -> bytes -> (verdict * bytes) * aop list
-
-val aop_sig : aop -> (z * z) * z
-
-type effect =
-| ELogAppend of bytes
-| ELogFsync
-| ELogTruncate
-| EMainStore of aop
-| EMainResize of z
-| EMsync
-
-type pstate = { p_buf : bytes; p_log : bytes; p_disk : bytes; p_rfoff : 
-                z; p_stage : z; p_fatal : bool }
-
-type pcfg = { c_bufsz : z; c_ccrc : bool }
-
-val lenZ : bytes -> z
-
-val flush_wl : pcfg -> pstate -> bool -> pstate * effect list
-
-val write_wl : pcfg -> pstate -> bytes -> bytes -> pstate * effect list
-
-val replay_effects : z -> aop list -> effect list
-
-val rollforward_live : pcfg -> pstate -> pstate * effect list
-
-val checkpoint : pcfg -> pstate -> bool -> z -> pstate * effect list
-
-val savepoint : pcfg -> pstate -> z -> bool -> pstate * effect list
-
-type event =
-| VWrite of z * bytes
-| VSet of z * z * z
-| VCopy of z * z * z
-| VResize of z * z
-| VSynced
-| VSavepoint of z * bool
-| VCheckpoint of z
-
-val write_hdr : z -> z -> z -> bytes
-
-val step : pcfg -> pstate -> event -> pstate * effect list
-
-val run : pcfg -> pstate -> event list -> pstate * effect list
-
-val apply_effect : (bytes * bytes) -> effect -> bytes * bytes
-
-val after_effects : bytes -> bytes -> effect list -> bytes * bytes
-
-val recovery_effects : bool -> bytes -> bytes -> effect list
-
-val effect_sig : effect -> ((z * z) * z) * z
-
-val lenB : bytes -> z
-
-val mk_image : bytes -> bytes -> bytes
-
-val split_image : bytes -> (bytes * bytes) option
-
-val open_image : bool -> bytes -> (verdict * bytes) * aop list
+val sblk_cmp_key_full :
+  (nat -> z list -> z list -> z) -> kmode -> z list -> z list -> z -> z
